@@ -1,6 +1,7 @@
 package driver
 
 import (
+	"time"
 	"encoding/json"
 	"fmt"
 	"math"
@@ -152,8 +153,32 @@ func execArgs(a *argSet, obj sim.TimeSteppingModel, variant, cut int, tailSeed f
 		objDims[obj] = key
 	}
 	obj.ApplyParameters(bufs.par)
+	// the environment is not an argument: consecutive executions see different process time zones
+	// (zones with daylight saving on both hemispheres, and UTC)
+	if len(envZones) > 0 {
+		time.Local = envZones[(envTick+envZoneShift)%len(envZones)]
+		envTick++
+	}
 	obj.Run(bufs.in, bufs.st, bufs.out)
 	return obj, bufs, flat3(bufs.out), flat2(bufs.st), T
+}
+
+var (
+	envZones     []*time.Location
+	envTick      int
+	envZoneShift int
+)
+
+func init() {
+	for _, n := range []string{"UTC", "America/New_York", "Australia/Sydney", "Europe/Berlin"} {
+		if l, err := time.LoadLocation(n); err == nil {
+			envZones = append(envZones, l)
+		}
+	}
+	if len(envZones) < 3 {
+		envZones = nil // no time zone database here: no variation
+	}
+	envZoneShift, _ = strconv.Atoi(os.Getenv("VERIF_ZONE_SHIFT"))
 }
 
 func enginePure(rc *RunCtx) *Outcome {
